@@ -143,6 +143,9 @@ def parseOp (s : St) (toks : List String) : Option Op :=
   | "msg" =>
     let k := kvNat toks "p"
     match parseMsg toks with
+    -- a request longer than 16 KiB never reaches the loop: the peer reader ends with an error and the peer is
+    -- reported as disconnected (the harness does the same)
+    | some (.request _ _ l) => if l > 16384 then some (.disconnect k) else (parseMsg toks).map (.msg k ·)
     | some msg => some (.msg k msg)
     | none =>
       match kvStr toks "t" with
